@@ -84,7 +84,11 @@ def gen(rng, broker, tier):
     if stop_at and rng.random() < 0.5:
         # exact placement: stop request while the body runs, the forced cancellation (what stop_wait_and_cancel() does when
         # the graceful period is over) 0-6 loop steps after the body ended
-        stop_at = {"iter": stop_at["iter"], "offset": rng.randint(0, 6), "anchor": "force"}
+        stop_at = {"iter": stop_at["iter"], "offset": rng.randint(0, 6), "anchor": rng.choice(["force", "force-early"])}
+        if stop_at["anchor"] == "force-early":
+            # ... or 0-7 loop steps after the message of that iteration was delivered, with a body that returns at once:
+            # the forced cancellation lands just before / while the body ends
+            prof[min(stop_at["iter"], len(prof) - 1)]["dur_us"] = 0
     return {"period_s": p, "profile": prof, "retries": retries, "until_us": until, "slow_store_us": slow, "stop_at": stop_at,
             "store_fails_at": rng.choice([None, 1, 2, 3]) if slow else None,
             "ttl_s": rng.choice([None, None, max(p * 3, 40), 100000]),
@@ -179,7 +183,7 @@ async def _main(sim, sc, out):
     router.actor(body, name="rec", queue="q0", retry_policy=workload.policy_from_spec({"kind": "table", "us": sc["retry_table_us"]}))
     sa0 = sc.get("stop_at")
     runners: list = []
-    if sa0 and sa0.get("anchor") == "force":
+    if sa0 and sa0.get("anchor") in ("force", "force-early"):
         import repid.worker as _rw
 
         from . import c03 as _c03
@@ -195,7 +199,7 @@ async def _main(sim, sc, out):
 
         _rw._Runner = _CapturingRunner
         out["_restore"] = lambda: setattr(_rw, "_Runner", _orig_runner)
-    w = r.Worker(routers=[router], graceful_shutdown_time=(3600.0 if sa0.get("anchor") == "force" else 0.0) if sa0 else 1.0,
+    w = r.Worker(routers=[router], graceful_shutdown_time=(3600.0 if sa0.get("anchor") in ("force", "force-early") else 0.0) if sa0 else 1.0,
                  _connection=connw)
     await sim.loop.spawn("p", r.Worker(routers=[router], _connection=connp).declare_all_queues())
     kw = {}
@@ -211,6 +215,22 @@ async def _main(sim, sc, out):
 
     # iteration bookkeeping through the recorder: a reschedule requeue (tried == 0) closes an iteration
     def listener(e, phase):
+        sa = sc.get("stop_at")
+        if (phase == "end" and e.op == "consume" and e.outcome == "returned" and e.id == "rj" and sa
+                and sa.get("anchor") == "force-early" and iter_no[0] == sa["iter"] and stop["us"] is None):
+            stop["us"] = sim.clock.us
+            stop["armed"] = True
+            sim.loop.deliver_signal("w", signal.SIGINT)
+
+            def force_early():
+                if runners:
+                    runners[-1].cancel_event.set()
+                    sim.count("forced-cancellation-around-body-end")
+
+            if sa["offset"] == 0:
+                force_early()
+            else:
+                sim.at_step(sim.loop.step + sa["offset"], force_early)
         if phase == "begin" and e.op == "requeue" and e.depth == 0 and e.args["params"]["tried"] == 0:
             sa = sc.get("stop_at")
             if sa and sa.get("anchor") == "requeue_begin" and iter_no[0] == sa["iter"]:
@@ -407,7 +427,7 @@ def task(spec):
     rng = random.Random(kernel.derive_seed(run_seed, "workload"))
     sc = gen(rng, spec["broker"], spec["tier"])
     sa = sc.get("stop_at") if sc.get("mode") != "twins" else None
-    if sa and sa.get("anchor") == "force" and not sc.get("slow_store_us"):
+    if sa and sa.get("anchor") in ("force", "force-early") and not sc.get("slow_store_us"):
         # the window is one loop step wide on the in-memory broker: every offset 0..7 after the body's end is tried
         sc.update({"seed": run_seed, "broker": spec["broker"], "property": spec["pid"]})
         outs = []
